@@ -521,3 +521,26 @@ proof fn lemma_all_seen_monotone(ev: Seq<(nat, Seq<u8>)>, total: nat, j: int, k:
         }
     }
 }
+
+// ---------------------------------------------------------------- try_make_fragments (the entry point QuicFrameWriter uses)
+
+#[verifier::external_body] pub struct FragQueueMapShim { _p: u8 }
+#[verifier::external_body] pub struct FragTimerShim { _p: u8 }
+#[verifier::external_body] pub struct FragDurationShim { _p: u8 }
+
+impl<T: Buf> MakeFragments<T> {
+    /// public face of wf() and of the fields (MakeFragments is a pub struct with private fields)
+    pub closed spec fn fresh(&self, id: u16, mtu: usize) -> bool {
+        self.wf() && self.id == id && self.mtu == mtu && self.next == 0
+    }
+}
+
+//@ contract Fragments::try_make_fragments
+    ensures
+        // ids wrap around after 65536 frames instead of trapping
+        *final(next_id) == (if *old(next_id) == 0xffff { 0u16 } else { (*old(next_id) + 1) as u16 }),
+        // Some: a well-formed fragmenter over the frame's buffer, labelled with the id that was current
+        ret.is_some() ==> ret.unwrap().fresh(*old(next_id), mtu),
+        // a usable mtu is never refused for a frame that fits (no spurious refusal is stated by MakeFragments::new)
+        mtu <= 4 ==> ret.is_none(),
+//@ end
